@@ -2,6 +2,8 @@ import Driver.Util
 import Driver.Iter
 import Driver.Recv
 import Driver.Gen
+import Driver.Parse
+import Driver.Proc
 
 /-!
 Line-protocol driver: one case per input line, `tag \t fields… \t observed`, one answer per line,
@@ -15,6 +17,14 @@ def dispatch (line : String) : String :=
   | "recv" :: rest => (handleRecv rest).getD "BAD-CASE\t0"
   | "gen" :: rest => (handleGen rest).getD "BAD-CASE\t0"
   | "netparse" :: rest => (handleNetParse rest).getD "BAD-CASE\t0"
+  | "proc" :: rest => (handleProc rest).getD "BAD-CASE\t0"
+  | "pports" :: rest => (handlePPorts rest).getD "BAD-CASE\t0"
+  | "prate" :: rest => (handlePRate rest).getD "BAD-CASE\t0"
+  | "ppayload" :: rest => (handlePPayload rest).getD "BAD-CASE\t0"
+  | "pipflags" :: rest => (handlePIPFlags rest).getD "BAD-CASE\t0"
+  | "ptcpflags" :: rest => (handlePTCPFlags rest).getD "BAD-CASE\t0"
+  | "pportsfile" :: rest => (handlePPortsFile rest).getD "BAD-CASE\t0"
+  | "pexclfile" :: rest => (handlePExclFile rest).getD "BAD-CASE\t0"
   | _ => "BAD-TAG\t0"
 
 partial def loop (h : IO.FS.Stream) (out : IO.FS.Stream) : IO Unit := do
